@@ -42,9 +42,19 @@ for f in sorted((root / "harness").glob("c[0-9][0-9].py")):
     txt = "; ".join(str(i).replace("|", "\\|").replace("\n", " ") for i in items) or "–"
     rows.append(f"| {pid} | {n} | {txt} |")
 notproved = "\n".join(rows)
+rows = ["| benign change | written for | what was changed (behaviour preserved) | checks run: first evaluation | latest |", "|---|---|---|---|---|"]
+def kb(pp):
+    m = re.match(r".*/(C\d+)-(\d+)$", pp); return (m.group(1), int(m.group(2)))
+for d in sorted(glob.glob(str(root / "benign" / "C*-*")), key=kb):
+    m = json.loads(open(d + "/meta.json").read())
+    ev = m.get("evaluation", {})
+    fmt = lambda r: ", ".join(f"{k}: {v}" for k, v in sorted((r or {}).items())) or "–"
+    what = str(m.get("summary", "")).replace("|", "\\|").replace("\n", " ")[:300]
+    rows.append(f"| {pathlib.Path(d).name} | {m['property']} | {what} | {fmt(ev.get('first'))} | {fmt(ev.get('latest'))} |")
+benign = "\n".join(rows)
 p = root / "DESIGN.md"
 s = p.read_text()
-for tag, body in (("findings", findings), ("seeded", seeded), ("asbuilt", asbuilt), ("notproved", notproved)):
+for tag, body in (("findings", findings), ("seeded", seeded), ("asbuilt", asbuilt), ("notproved", notproved), ("benign", benign)):
     pat = re.compile(rf"(<!-- BEGIN {tag} -->).*?(<!-- END {tag} -->)", re.S)
     assert pat.search(s), tag
     s = pat.sub(lambda mm, body=body: mm.group(1) + "\n" + body + "\n" + mm.group(2), s)
